@@ -8,15 +8,15 @@ from mc.core import Acc
 ID = "C19"
 RULE = ("E-FULL: every Unicode scalar value c (1,112,064) in the 4 contexts c, 'a'+c, c+'b', 'a'+c+'b' through the real "
         "labella.tex.uni2tex; E-INPUT: every string of length <= 4 (thorough <= 5) over a 12 (16) letter alphabet mixing ASCII, "
-        "TeX specials, precomposed letters, listed/unlisted combining marks, compatibility characters, CJK, emoji; thorough: the "
-        "same strings (length <= 3) as label texts through TimelineTex.export(), read from the \\def\\text lines. Oracle R-UNI: no "
+        "TeX specials (incl. %, #, $, _), precomposed letters, listed/unlisted combining marks, compatibility characters, CJK, emoji; every string of length <= 2 (thorough <= 3) also as a label text through TimelineTex.export(), read from the \\def\\text lines. Oracle R-UNI: no "
         "exception, ASCII unchanged, accent commands read back as combining marks reproduce the input under NFD. "
         "Non-trivial: the output contains an accent command.")
 ASSUMPTIONS = ["inputs that themselves spell an accent command (backslash, accent letter, brace) are excluded from read-back (ambiguous by design)",
                "unicodedata of the running interpreter is the reference for NFD and decompositions"]
-REQUIRED_COUNTERS = ("codepoints", "with_command", "strings")
+REQUIRED_COUNTERS = ("codepoints", "with_command", "strings", "exports")
 
 ALPHA12 = ["a", " ", "\\", "{", "&", "\u00e9", "\u0301", "\u0489", "\u2026", "\u00a0", "\u4e2d", "\U0001F600"]
+SPECIALS = ["%", "#", "$", "_", "~", "^", "}", "\u212a", "\u00fc"]  # TeX specials pass through by design
 EXTRA4 = ["\ufb01", "\u00b2", "\u00bd", "\u01d8"]
 SEEDED = ["\u00fc", "\u0327", "\u212b", "\u1e69", "\u0308", "\u0323", "e", "}"]
 
@@ -41,6 +41,9 @@ def plan(tier, seed):
     for first in range(len(alpha)):
         shards.append({"kind": "str", "alpha": alpha, "nmax": nmax, "first": first})
     shards.append({"kind": "str", "alpha": _seed_alpha(seed), "nmax": 3, "first": None})
+    shards.append({"kind": "str", "alpha": ALPHA12[:8] + SPECIALS, "nmax": 3, "first": None})
+    for first in range(len(ALPHA12) + len(SPECIALS)):  # label texts through the real TikZ export (length <= 2)
+        shards.append({"kind": "tex", "alpha": ALPHA12 + SPECIALS, "nmax": 2, "first": first})
     if tier == "thorough":
         for first in range(len(alpha)):
             shards.append({"kind": "tex", "alpha": alpha, "nmax": 3, "first": first})
